@@ -718,6 +718,37 @@ static void run_registry(void)
         mon_distinct("nontrivial", mon_hash_u64((uint64_t)round, 145));
         mon_end();
     }
+    /* more users of the shared arithmetic tables than an 8-bit or a 16-bit count can hold: 300 live rs_vand instances, and on
+     * top of them 2^16 further references - real instances in the thorough tier, references taken through the plug-in's own
+     * exported init entry point (what every rs_vand instance calls) in the quick tier.  Then one more create, one destroy,
+     * and the survivors are used; everything is released at the end. */
+    if (mon_case("many-users-of-the-shared-tables")) {
+        enum { NREAL = 300 };
+        static int ds[NREAL]; int nreal = 0; cfg_t c = { EC_BACKEND_LIBERASURECODE_RS_VAND, 3, 2, 2, 0, CHKSUM_NONE };
+        for (int i = 0; i < NREAL; i++) { int d = lec_create(&c); if (d <= 0) { mon_viol("C14", "create-failed", "rs_vand instance #%d of many: rc=%d", i, d); break; } ds[nreal++] = d; }
+        live_t S1, S2; int have = live_open(&S1, &c, 77, MO.seed) == 0 && live_open(&S2, &c, 131, MO.seed + 1) == 0;
+        if (have) { live_roundtrip(&S1, "C14", "with 300 rs_vand instances alive", 0); }
+        long extra = 0; int *big = NULL; void *h = NULL; void (*in)(int, int) = NULL; void (*de)(void) = NULL;
+        if (MO.thorough) { big = malloc(sizeof(int) * 66000); for (long i = 0; i < 66000; i++) { int d = lec_create(&c); if (d <= 0) { mon_viol("C14", "create-failed", "rs_vand instance #%ld of many: rc=%d", NREAL + i, d); break; } big[extra++] = d; } }
+        else { h = dlopen("liberasurecode_rs_vand.so.1", RTLD_NOW); in = h ? (void (*)(int, int))dlsym(h, "init_liberasurecode_rs_vand") : NULL; de = h ? (void (*)(void))dlsym(h, "deinit_liberasurecode_rs_vand") : NULL;
+               if (in && de) for (long i = 0; i < 66000; i++) { in(3, 2); extra++; } else mon_logf("HARNESS rs_vand plug-in entry points not found"); }
+        mon_count("shared_table_users_peak", nreal + extra + 2);
+        int one = lec_create(&c);
+        if (one <= 0) mon_viol("C14", "create-failed", "create with %ld users of the shared tables alive: rc=%d", (long)nreal + extra + 2, one);
+        else if (liberasurecode_instance_destroy(one) != 0) mon_viol("C14", "destroy-failed", "destroy with many users alive");
+        if (nreal > 0) { liberasurecode_instance_destroy(ds[--nreal]); }
+        if (have) { live_roundtrip(&S1, "C14", "survivor after one of many users of the shared tables was destroyed", 1); live_roundtrip(&S2, "C14", "survivor after one of many users of the shared tables was destroyed", 2); }
+        if (big) { for (long i = 0; i < extra; i++) liberasurecode_instance_destroy(big[i]); free(big); } else if (de) for (long i = 0; i < extra; i++) de();
+        if (have) live_roundtrip(&S2, "C14", "survivor after the extra users left", 3);
+        for (int i = 0; i < nreal; i++) liberasurecode_instance_destroy(ds[i]);
+        if (have) { live_roundtrip(&S1, "C14", "last two users of the shared tables", 4); live_close(&S1); live_roundtrip(&S2, "C14", "last user of the shared tables", 5); live_close(&S2); }
+        if (h) dlclose(h);
+        mon_count("evaluations", nreal + extra); mon_distinct("nontrivial", mon_hash_u64(7, 146));
+        mon_end();
+    }
+    /* histories of creates (twins included) and destroys over small pools, every live instance used after every step */
+    { static const cfg_t p1[] = { { EC_BACKEND_LIBERASURECODE_RS_VAND, 4, 2, 2, 0, CHKSUM_CRC32 }, { EC_BACKEND_FLAT_XOR_HD, 10, 5, 3, 0, CHKSUM_NONE }, { EC_BACKEND_NULL, 4, 2, 2, 0, CHKSUM_NONE }, { EC_BACKEND_ISA_L_RS_VAND, 4, 2, 2, 0, CHKSUM_NONE } };
+      lec_population(p1, 4, "mixed-backends", MO.thorough ? 6 : 5, MO.thorough ? 300 : 24, MO.thorough ? 48 : 28); }
     if (mon_case_all("final-leakcheck")) { q_leakcheck("C14", "end of registry histories"); mon_end(); }
 }
 
@@ -985,6 +1016,9 @@ static void run_leaks(void)
 extern long ledger_fail_seen(void);
 typedef struct { int kind; uint32_t erased; int dest; int mis; int force; const char *name; } oop_t;
 
+static int oom_only_kind = -1;            /* -1: every operation (C16's run); 0 / 2: encode / reconstruct operations only, judged under the calling property (C15 / C03) */
+#define OOM_LP (oom_only_kind < 0 ? "C16" : PROP)
+#define OOM_LW (oom_only_kind < 0 ? "C02" : PROP)
 static int oom_do(live_t *L, const oop_t *o, int *exact)
 {
     int n = L->s.n, k = L->c.k, rc = 0;
@@ -998,10 +1032,20 @@ static int oom_do(live_t *L, const oop_t *o, int *exact)
         cnt++;
     }
     switch (o->kind) {
-    case 0: { char **ed = NULL, **ep = NULL; uint64_t fl = 0;
+    case 0: { /* the output variables still hold what they held before the call - NULL, or (o->mis) the arrays of an earlier
+               * stripe which the caller has not released yet, here blocks of the harness filled with a pattern: a failing
+               * encode leaves them to the caller, whose release of them afterwards is the only one */
+              char **ed = NULL, **ep = NULL; uint64_t fl = 0; char **pd = NULL, **pp = NULL;
+              if (o->mis) { pd = malloc(sizeof(char *) * 32); pp = malloc(sizeof(char *) * 32);
+                            for (int i = 0; i < 32; i++) { pd[i] = malloc(96); memset(pd[i], 0x6B, 96); pp[i] = malloc(96); memset(pp[i], 0x6B, 96); }
+                            ed = pd; ep = pp; }
               rc = liberasurecode_encode(L->desc, (char *)L->data, L->s.len, &ed, &ep, &fl);
               if (rc == 0) { if (fl != L->s.flen) *exact = 0; else for (int i = 0; i < n; i++) if (memcmp(L->s.frag[i], i < k ? ed[i] : ep[i - k], fl)) *exact = 0;
-                             liberasurecode_encode_cleanup(L->desc, ed, ep); } } break;
+                             liberasurecode_encode_cleanup(L->desc, ed, ep); }
+              if (o->mis) { int touched = 0;
+                            for (int i = 0; i < 32; i++) for (int q = 0; q < 96; q++) if (((unsigned char *)pd[i])[q] != 0x6B || ((unsigned char *)pp[i])[q] != 0x6B) touched = 1;
+                            if (touched) { mon_viol(OOM_LP, "caller-block-released-or-written", "encode (rc %d) wrote to or released the blocks its output variables pointed to on entry (an earlier stripe of the caller)", rc); *exact = 0; }
+                            else { for (int i = 0; i < 32; i++) { free(pd[i]); free(pp[i]); } free(pd); free(pp); } } } break;
     case 1: { char *mine = malloc(48); memset(mine, 0x6B, 48); char *out = mine; uint64_t ol = 0; rc = liberasurecode_decode(L->desc, lst, cnt, L->s.flen, o->force, &out, &ol);
               if (rc == 0) { *exact = ol == L->s.len && !memcmp(out, L->data, L->s.len); if (out != mine) liberasurecode_decode_cleanup(L->desc, out); }
               for (int q = 0; q < 48; q++) if (mine[q] != 0x6B) *exact = 0;          /* the block the output pointer held on entry is the caller's */
@@ -1043,21 +1087,21 @@ static int oom_child_op(void *v)
     mon_child_phase = 1;                     /* the injected call is over: from here on no fault is excusable */
     if (a->c->be == EC_BACKEND_NULL) ex = 1;
     if (fired) fl |= OOM_FIRED;
-    if (rc > 0) mon_viol("C16", "oom-positive-rc", "%s returned %d when allocation #%ld failed", a->op->name, rc, a->nth);
-    if (rc == 0) { fl |= OOM_SUCCEEDED; if (!ex) mon_viol("C02", "oom-success-with-wrong-result", "%s reported success with wrong bytes when its allocation #%ld failed", a->op->name, a->nth); }
+    if (rc > 0) mon_viol(OOM_LP, "oom-positive-rc", "%s returned %d when allocation #%ld failed", a->op->name, rc, a->nth);
+    if (rc == 0) { fl |= OOM_SUCCEEDED; if (!ex) mon_viol(OOM_LW, "oom-success-with-wrong-result", "%s reported success with wrong bytes when its allocation #%ld failed", a->op->name, a->nth); }
     else fl |= OOM_ERROR;
-    q_zero(&q, "C16", "call during which an allocation failed (after its cleanup call if it succeeded)");
+    q_zero(&q, OOM_LP, "call during which an allocation failed (after its cleanup call if it succeeded)");
     /* next identical call behaves normally */
     int rc2 = oom_do(L, a->op, &ex);
     if (a->c->be == EC_BACKEND_NULL) ex = 1;
-    if (rc2 != a->rc0 || !ex) mon_viol("C16", "oom-next-call-differs", "%s after a call that hit an allocation failure: rc=%d (normally %d) exact=%d", a->op->name, rc2, a->rc0, ex);
-    q_zero(&q, "C16", "follow-up call");
-    if (a->small) { oom_small_decode(a, "after the faulted call"); rc2 = oom_do(L, a->op, &ex); if (rc2 != a->rc0 || !ex) mon_viol("C16", "oom-next-call-differs", "%s, second follow-up after a smaller stripe: rc=%d exact=%d", a->op->name, rc2, ex); q_zero(&q, "C16", "second follow-up call"); }
+    if (rc2 != a->rc0 || !ex) mon_viol(OOM_LP, "oom-next-call-differs", "%s after a call that hit an allocation failure: rc=%d (normally %d) exact=%d", a->op->name, rc2, a->rc0, ex);
+    q_zero(&q, OOM_LP, "follow-up call");
+    if (a->small) { oom_small_decode(a, "after the faulted call"); rc2 = oom_do(L, a->op, &ex); if (rc2 != a->rc0 || !ex) mon_viol(OOM_LP, "oom-next-call-differs", "%s, second follow-up after a smaller stripe: rc=%d exact=%d", a->op->name, rc2, ex); q_zero(&q, OOM_LP, "second follow-up call"); }
     /* and the instance can be destroyed with everything returned */
     qp_t q2; q_begin(&q2);
     int d = L->desc; L->desc = -1;
-    if (liberasurecode_instance_destroy(d) != 0) mon_viol("C16", "oom-destroy-failed", "destroy after an allocation failure in %s failed", a->op->name);
-    q_delta(&q2, "C16", "destroy after the faulted call", -1, 0);
+    if (liberasurecode_instance_destroy(d) != 0) mon_viol(OOM_LP, "oom-destroy-failed", "destroy after an allocation failure in %s failed", a->op->name);
+    q_delta(&q2, OOM_LP, "destroy after the faulted call", -1, 0);
     return fl;
 }
 
@@ -1165,7 +1209,7 @@ static void run_oom(void)
         long Acreate = 0;
         { ledger_fail_arm(1L << 40); int d = lec_create(&c); Acreate = ledger_fail_seen(); ledger_fail_disarm(); if (d > 0) liberasurecode_instance_destroy(d); ledger_refresh(); }
         mon_count0("oom_alloc_sites_enumerated", Acreate);
-        for (long nth = 1; nth <= Acreate; nth++) {
+        for (long nth = 1; nth <= Acreate && oom_only_kind < 0; nth++) {
             if (!mon_case("%s|oom|create|alloc#%ld", ck, nth)) continue;
             oomarg_t a = { &L, NULL, nth, 0, &c, len, NULL, base0, 1 }; mon_child_t ch;
             if (mon_fork_run(oom_child_create, &a, &ch) != 0) mon_logf("HARNESS fork failed");
@@ -1175,9 +1219,10 @@ static void run_oom(void)
             mon_end();
         }
         /* ---- operations on a live instance ---- */
-        oop_t ops[24]; int no = 0;
+        oop_t ops[32]; int no = 0;
         uint32_t d0 = 1u, d01 = 3u, p0 = 1u << k;
         ops[no++] = (oop_t){ 0, 0, 0, 0, 0, "encode" };
+        ops[no++] = (oop_t){ 0, 0, 0, 1, 0, "encode-outputs-still-holding-an-earlier-stripe" };
         ops[no++] = (oop_t){ 1, 0, 0, 0, 0, "decode-fastpath" };
         ops[no++] = (oop_t){ 1, 0, 0, 1, 0, "decode-fastpath-misaligned" };
         ops[no++] = (oop_t){ 1, 0, 0, 1, 1, "decode-fastpath-misaligned-forced" };
@@ -1201,6 +1246,7 @@ static void run_oom(void)
             if (t3) {
                 uint64_t sl = (uint64_t)k + 3; small_data = malloc(sl); rng_t r; rng_seed(&r, MO.seed, 4242); rng_fill(&r, small_data, sl);
                 if (stripe_make(&small, L.desc, &c, small_data, sl) == 0) { pq_op = no; ops[no++] = (oop_t){ 1, t3, 0, 0, 0, "decode-3data-PxorQ-after-smaller-stripe" }; ops[no++] = (oop_t){ 1, t3, 0, 1, 1, "decode-3data-PxorQ-misaligned-forced-after-smaller-stripe" }; }
+                ops[no++] = (oop_t){ 2, t3, __builtin_ctz(t3), 0, 0, "reconstruct-3data-PxorQ-first" }; ops[no++] = (oop_t){ 2, t3, 31 - __builtin_clz(t3), 1, 0, "reconstruct-3data-PxorQ-last-misaligned" };
                 ledger_refresh();
             }
         }
@@ -1209,6 +1255,7 @@ static void run_oom(void)
         ops[no++] = (oop_t){ 4, 0, 0, 1, 0, "metadata+validation" };
         for (int oi = 0; oi < no; oi++) {
             int ex; long A; int rc0;
+            if (oom_only_kind >= 0 && ops[oi].kind != oom_only_kind) continue;
             { ledger_fail_arm(1L << 40); rc0 = oom_do(&L, &ops[oi], &ex); A = ledger_fail_seen(); ledger_fail_disarm(); }
             mon_count0("oom_alloc_sites_enumerated", A);
             if (c.be == EC_BACKEND_NULL) ex = 1;
@@ -1398,7 +1445,9 @@ static void run_faults(void)
                                   { EC_BACKEND_ISA_L_RS_CAUCHY, 2, 5, 5, 0, CHKSUM_CRC32 }, { EC_BACKEND_LIBERASURECODE_RS_VAND, 3, 3, 3, 0, CHKSUM_CRC32 }, { EC_BACKEND_LIBERASURECODE_RS_VAND, 12, 20, 20, 0, CHKSUM_NONE },
                                   { EC_BACKEND_FLAT_XOR_HD, 5, 5, 3, 0, CHKSUM_CRC32 }, { EC_BACKEND_SHSS, 4, 2, 2, 0, CHKSUM_CRC32 }, { EC_BACKEND_SHSS, 2, 4, 4, 0, CHKSUM_NONE },
                                   { EC_BACKEND_JERASURE_RS_VAND, 4, 2, 2, 0, CHKSUM_CRC32 }, { EC_BACKEND_JERASURE_RS_VAND, 2, 3, 3, 8, CHKSUM_NONE }, { EC_BACKEND_JERASURE_RS_CAUCHY, 3, 2, 2, 0, CHKSUM_CRC32 },
-                                  { EC_BACKEND_LIBPHAZR, 4, 2, 1, 0, CHKSUM_CRC32 }, { EC_BACKEND_LIBPHAZR, 2, 3, 3, 0, CHKSUM_NONE } };
+                                  { EC_BACKEND_LIBPHAZR, 4, 2, 1, 0, CHKSUM_CRC32 }, { EC_BACKEND_LIBPHAZR, 2, 3, 3, 0, CHKSUM_NONE },
+                                  /* nearly all of the widest stripe is parity */
+                                  { EC_BACKEND_LIBERASURECODE_RS_VAND, 4, 28, 28, 0, CHKSUM_NONE }, { EC_BACKEND_LIBERASURECODE_RS_VAND, 1, 31, 31, 0, CHKSUM_CRC32 }, { EC_BACKEND_ISA_L_RS_CAUCHY, 2, 30, 30, 0, CHKSUM_NONE }, { EC_BACKEND_FLAT_XOR_HD, 20, 6, 4, 0, CHKSUM_NONE } };
     for (size_t pi = 0; pi < sizeof pool / sizeof pool[0]; pi++) {
         cfg_t c = pool[pi];
         if (!isal_ok && (c.be == EC_BACKEND_ISA_L_RS_VAND || c.be == EC_BACKEND_ISA_L_RS_CAUCHY)) continue;
@@ -1421,6 +1470,9 @@ static void run_faults(void)
         /* the fragment with the highest index lost as well: rebuilt alone, and lost together with data fragment 0 */
         sc[ns++] = (sstep_t){ 2, 1u << (n - 1), n - 1 };
         if (tol >= 2) sc[ns++] = (sstep_t){ 1, 1u | 1u << (n - 1), 0 };
+        /* as much lost as the code tolerates: data fragment 0 and the tol-1 highest indexes (on the widest stripes more than
+         * twenty fragments: whatever the failure path does with the list of missing indexes meets its longest form) */
+        if (tol >= 3) { uint32_t er = 1u; for (int i = 0; i < tol - 1; i++) er |= 1u << (n - 1 - i); sc[ns++] = (sstep_t){ 1, er, 0 }; sc[ns++] = (sstep_t){ 2, er, 0 }; sc[ns++] = (sstep_t){ 2, er, n - 1 }; }
         /* count calls of each op in a fault-free run */
         long total[6] = {0};
         if (mon_case_all("%s|fault-free-script", ck)) {
@@ -1576,6 +1628,8 @@ int main(int argc, char **argv)
     else if ((!strcmp(PROP, "C14") || !strcmp(PROP, "C17")) && !strcmp(MO.mode, "oomcreate")) run_registry_oomcreate(PROP);
     else if (!strcmp(PROP, "C14")) run_registry();
     else if (!strcmp(PROP, "C16") && !strcmp(MO.mode, "oom")) run_oom();
+    else if (!strcmp(PROP, "C03") && !strcmp(MO.mode, "oomrec")) { oom_only_kind = 2; OOM_PROP = PROP; run_oom(); }
+    else if (!strcmp(PROP, "C15") && !strcmp(MO.mode, "oomenc")) { oom_only_kind = 0; OOM_PROP = PROP; run_oom(); }
     else if (!strcmp(PROP, "C16")) run_leaks();
     else if (!strcmp(PROP, "C17")) run_faults();
     else { mon_logf("HARNESS unknown property %s", PROP); mon_finish(); return 2; }
